@@ -97,6 +97,7 @@ pub fn generate(prop: &str, rng: &mut Rng, tier: Tier) -> Scenario {
         (_, 7..=9) => GasSched::Randomized { seed: g.next_u64() },
         _ => GasSched::SparseZero { seed: g.next_u64() },
     };
+    let base_nonzero = g.chance(1, 3);
     let gas_price = *g.pick(&[0u64, 0, 0, 1, 10, 1000]);
     let height = *g.pick(&[0u32, 1, 10, 1000, 70_000]);
     let keys = gen_keys(&mut g);
@@ -304,5 +305,6 @@ pub fn generate(prop: &str, rng: &mut Rng, tier: Tier) -> Scenario {
         keys: keys.iter().map(hex::encode).collect(),
         txs,
         plan,
+        base_nonzero,
     }
 }
